@@ -59,7 +59,7 @@ META = {
         "text": "Theorem C20_size_is_length (Coq, closed): the SizeSerializer model and the Serializer model agree (size = length, and they "
                 "fail together) for every value in every serializer position, except arrays with described elements (refutation witness; "
                 "known finding). serialized_size vs to_vec length, slice-vs-io reader results and to_value/from_value are compared on "
-                "the implementation every run.",
+                "the implementation every run. Typed layer: C20_composite_size_is_length - for every composite schema and field vector the SizeSerializer model driven by the derived serialize (pending nulls, elision, defaults) gives the length of the bytes of the Serializer model; serialized_size is compared with the model and with to_vec on 28 composite types every run.",
         "design_ref": "DESIGN.md section 4, C20",
         "note": "Trusted as C03. The io-reader and value-tree parts are differential tests on the implementation, not theorems.",
         "technique": "Coq proof (nested induction) + correspondence + differential testing of the entry points",
